@@ -1,6 +1,6 @@
 (* C16 — UpdateStakingParams applies exactly the given, valid parameters. *)
 From stdpp Require Import gmap.
-Require Import Model.Base Model.Validate Model.State Model.Staking Model.Slashing Model.Poa Model.App proofs.L1Basic proofs.InvElig proofs.InvMsgs proofs.InvTop proofs.InvAccept.
+Require Import Model.Base Model.Validate Model.State Model.Staking Model.Slashing Model.Poa Model.App proofs.L1Basic proofs.InvElig proofs.InvMsgs proofs.InvTop proofs.InvAccept proofs.InvCap.
 
 Theorem C16_applies_exactly : forall c p c',
   msg_update_params c admin_id p = MOk c' ->
@@ -41,3 +41,13 @@ Theorem C16_accepts_exactly_when : forall c s p,
   (exists c', msg_update_params c s p = MOk c') <->
   is_admin s = true /\ params_validate p = true /\ sp_bond_denom p = sp_bond_denom (params (stk c)).
 Proof. exact update_params_accept_iff. Qed.
+
+(* the cap in force is respected at once: at the end of every block — the very block in which the admin lowers the cap included —
+   the last validator set (what CometBFT is given) has at most max_validators members, max_validators being the value the block's
+   last accepted update left *)
+Theorem C16_set_never_exceeds_the_cap : forall w b c2,
+  CI (w_chain w) -> w_halted w = None -> before_endblock w b = Some c2 -> w_halted (fst (run_block w b)) = None ->
+  let w' := fst (run_block w b) in
+  Z.of_nat (size (last_pow (stk (w_chain w')))) <= Z.max 0 (sp_max_validators (params (stk (w_chain w')))) /\
+  params (stk (w_chain w')) = params (stk c2).
+Proof. exact block_set_within_cap. Qed.
